@@ -303,6 +303,7 @@ struct PoolOptions {
     std::string tmpdir         = "build/run";
     std::string tag            = "pool";
     std::string asan_log;              // when set, isolated children get ASAN log redirected there
+    uint64_t    max_crashes    = 12;   // after this many isolated crashes/hangs the stage stops early (not exhaustive)
 };
 
 struct PoolResult {
@@ -472,6 +473,15 @@ class Pool {
                 res.acc.merge(part);
                 continue;
             }
+            if (sh->stop.load() != 0 && WIFSIGNALED(status) && WTERMSIG(status) == SIGKILL &&
+                res.crashes + res.hangs + res.unreproduced >= opt.max_crashes) {
+                Acc ck2;
+                if (ck2.load(ckfile(w))) {
+                    res.acc.merge(ck2);
+                }
+                unlink(ckfile(w).c_str());
+                continue; // killed by us after the crash cap
+            }
             // abnormal end while running case (s.chunk, s.idx): partial results of this worker are lost except
             // for completed chunks, which were checkpointed (see worker_main); re-run the case alone.
             Acc ck;
@@ -490,6 +500,22 @@ class Pool {
                 i = 0;
             }
             isolate(c, i, fn, was_hang, status, res);
+            if (res.crashes + res.hangs + res.unreproduced >= opt.max_crashes) {
+                // enough: the verdict is decided; stop dispatching, do not resume this chunk
+                if (sh->stop.load() == 0) {
+                    sh->stop.store(1);
+                    res.complete = false;
+                    for (auto &x : ws) {
+                        if (x.pid != 0) {
+                            kill(x.pid, SIGKILL);
+                        }
+                    }
+                }
+                continue;
+            }
+            if (sh->stop.load() != 0) {
+                continue;
+            }
             // re-run the chunk without the failing case (its partial results died with the worker)
             skips[c].push_back(i);
             spawn(w, c);
